@@ -30,6 +30,7 @@ let election n limit evs =
   let st = ref (init cfg) in
   let out = ref [] in
   let stop = ref false in
+  ignore stop;
   List.iter (fun ev ->
       if not !stop then begin
         let arg = String.sub ev 1 (String.length ev - 1) in
@@ -47,9 +48,9 @@ let election n limit evs =
           | 'H' -> DeliverHealth (nat_of_int (int_of_string arg))
           | 'D' -> DropHealth (nat_of_int (int_of_string arg))
           | _ -> failwith "bad event" in
-        let panics = (match e with DeliverHealth k -> health_panics !st k | _ -> false) in
-        if panics then begin out := "PANIC" :: !out; stop := true end
-        else begin st := step cfg !st e; out := observe cfg n !st :: !out end
+        (* the model follows the repaired code (nil check in gcProxySessionsForNode): the
+           health-check handler always completes; Election.step never panics *)
+        st := step cfg !st e; out := observe cfg n !st :: !out
       end) evs;
   String.concat "|" (List.rev !out)
 
